@@ -47,11 +47,93 @@ def run(repo: Repo, L: Ledger, tier: str):
         raise AnalysisError("anchors IndexedAssembly.add_scaffold / find_overlaps vanished")
 
     _r1(repo, L, ia, add)
+    _result_sites(repo, L, find)
+    _bisect_calls(repo, L, find)
     scope = [m for m in repo.functions.values() if m.module.name in ("tola.assembly.indexed_assembly", "tola.assembly.overlap_result")]
     if tier == "thorough":
         scope = list(repo.functions.values())
     _r2(repo, L, scope)
     _r345(repo, L, ia, find)
+
+
+# ------------------------------------------------------------------------------ result sites / bisect
+
+
+def _result_sites(repo, L, find: Func):
+    """R3/R6 must-pass-through: every path that returns a lookup result has gone through both terminal-gap walks
+    (the while loops testing isinstance(<row>, Gap)) — no shortcut returns rows with leading/trailing gaps or an
+    all-gap result."""
+    strip = [w for w in walk_shallow(find.node) if isinstance(w, ast.While) and any(isinstance(c, ast.Call) and dotted(c.func) == "isinstance" and len(c.args) == 2 and dotted(c.args[1]) == "Gap" for c in ast.walk(w.test))]
+    if len(strip) < 2:
+        # gap stripping written differently: the rules below (R3/R6) will say what they can
+        return
+    n_ret = 0
+    bad = None
+    for p in paths(find, (0,), exc_edges=False):
+        if p.status != "return":
+            continue
+        rets = [e.node for e in p.events if e.kind == "return"]
+        if not rets or not (isinstance(rets[-1].value, ast.Call) and dotted(rets[-1].value.func) == "OverlapResult"):
+            continue
+        n_ret += 1
+        seen = {id(e.node) for e in p.events if e.kind == "cond"}
+        missing = [w for w in strip if id(w.test) not in seen]
+        if missing and bad is None:
+            bad = (rets[-1], p)
+    L.check(
+        bad is None, "R3", f"{find.short}:every-result-stripped", f"all {n_ret} result-returning paths pass through both terminal-gap walks",
+        f"a lookup result is returned on a path that bypasses the terminal-gap walks ({bad[1].describe()[:160] if bad else ''}): leading/trailing gap rows (or only gap rows) are returned, and the span is not that of the first/last returned row",
+        find.loc(bad[0]) if bad else find.loc(), witness={"scaffold": "[gap, frag, gap]", "query": "the whole scaffold"},
+    )
+
+
+def _bisect_calls(repo, L, find: Func):
+    """A bisection of the cumulative-end index must land on the boundary the linear walk defines:
+       first row with end >= bait.start  ==  bisect_left(idx, bait.start)
+       last row with start <= bait.end   ==  bisect_left(idx, bait.end)          (row_start(k) = idx[k-1] + 1)
+    bisect_right(a, x) == bisect_left(a, x + 1) on integers; any other landing point is off by one exactly when a row
+    ends on the query boundary."""
+    calls = [c for c in walk_shallow(find.node) if isinstance(c, ast.Call) and (dotted(c.func) or "").split(".")[-1] in ("bisect", "bisect_left", "bisect_right") and len(c.args) >= 2]
+    if not calls:
+        return
+    bparam = find.params()[1]
+
+    def lin_of(e, depth=0):
+        if isinstance(e, ast.Name) and depth < 4:
+            from ..util import local_defs
+
+            ds = local_defs(find, e.id)
+            if len(ds) == 1:
+                return lin_of(ds[0], depth + 1)
+        t = norm(e).replace(" ", "")
+        if t in (f"{bparam}.start",):
+            return Lin.atom("bs")
+        if t in (f"{bparam}.end",):
+            return Lin.atom("be")
+        return _alin(e) if not isinstance(e, ast.Name) else Lin.atom(e.id)
+
+    for c in calls:
+        kind = (dotted(c.func) or "").split(".")[-1]
+        x = lin_of(c.args[1])
+        if isinstance(x, Lin) and any(isinstance(a, str) and a not in ("bs", "be") for a in dict(x.t)):
+            # the probe may be written over locals: resolve them
+            x2 = Lin.const(x.c)
+            for a, k in dict(x.t).items():
+                sub = lin_of(ast.Name(id=a, ctx=ast.Load())) if isinstance(a, str) and a.isidentifier() else None
+                x2 = x2 + (sub.scale(k) if isinstance(sub, Lin) else Lin({a: k}))
+            x = x2
+        if x is None:
+            raise AnalysisError(f"{find.short}: bisection probe '{norm(c.args[1])}' not understood")
+        landing = x if kind == "bisect_left" else x + 1
+        ok = landing == Lin.atom("bs") or landing == Lin.atom("be")
+        off = any((landing - Lin.atom(a)).is_const() for a in ("bs", "be"))
+        if not ok and not off:
+            raise AnalysisError(f"{find.short}: bisection '{norm(c)[:60]}' is not a probe for the bait's start or end")
+        L.check(
+            ok, "R5", f"{find.short}:{kind}({norm(c.args[1])})", "bisection lands on the boundary the linear extension defines",
+            f"{norm(c)[:70]} lands on the first index whose row end is >= {landing}: off by one when a row ends exactly on the query boundary — the lookup then returns a row that does not intersect the query (or drops one that does)",
+            find.loc(c), witness={"rows": "contig rows, one ending exactly at the last base of the query", "expected": "bisect_left(idx, bait.start) / bisect_left(idx, bait.end)"},
+        )
 
 
 # ------------------------------------------------------------------------------ R1
@@ -61,7 +143,7 @@ def _r1(repo, L, ia, add):
     ex = SymExec(repo, loop_iters=(0, 1, 2, 3))
     st = State()
     ps = add.params()
-    finals = ex.run_function(add, st, {ps[0]: Sym("self", ia), ps[1]: Sym("scffld")})
+    finals = ex.run_function(add, st, {ps[0]: Sym("self", ia), ps[1]: Sym("scffld", repo.cls("Scaffold"))})
     n = 0
     bad = None
     stored_scaffold = True
